@@ -82,6 +82,9 @@ func (s *grpcServer) GetActionResult(ctx context.Context,
 			return nil, status.Error(gRPCErrCode(err, codes.Unknown), err.Error())
 		}
 		if rdr == nil || sizeBytes <= 0 {
+			if rdr != nil {
+				_ = rdr.Close()
+			}
 			s.accessLogger.Printf("%s %s %s", logPrefix, req.ActionDigest.Hash, "NOT FOUND")
 			return nil, status.Error(codes.NotFound,
 				fmt.Sprintf("%s not found in AC", req.ActionDigest.Hash))
